@@ -204,8 +204,8 @@ def tlc_gen(module, cfg, workers=1, timeout=3600, simulate=None, extra_env=None)
             except Exception:
                 pass
     states, trans = tlc_stats(out)
-    if "Error:" in out and not beh:
-        log(out[-4000:])
+    if "Error:" in out or not beh:
+        log("\n".join(l for l in out.splitlines() if not l.startswith('"'))[-4000:])
         raise ToolError("TLC generator failed: %s/%s" % (module, cfg))
     return beh, states, trans
 
@@ -224,8 +224,10 @@ def load_findings():
 class Verdict:
     """Collects violations of one property check; knows the known-findings file."""
 
-    def __init__(self, prop):
+    def __init__(self, prop, out_of_scope=None):
         self.prop = prop
+        self.out_of_scope = out_of_scope or (lambda sig: False)
+        self.skipped = 0
         self.known = [f for f in load_findings() if f.get("status") == "known" and prop in f["properties"]]
         self.violations = []      # (signature dict, replay path)
         self.known_hits = {}      # finding id -> count
@@ -234,6 +236,9 @@ class Verdict:
     def report(self, sig, replay_obj):
         """sig: dict describing the failing observation (kind + details)."""
         from findings import matches
+        if self.out_of_scope(sig):
+            self.skipped += 1      # an observation another property's check decides
+            return False
         for f in self.known:
             if matches(f, sig):
                 self.known_hits[f["id"]] = self.known_hits.get(f["id"], 0) + 1
@@ -265,6 +270,7 @@ class Verdict:
                   assumptions=assumptions, wall_s=round(time.time() - self.t0, 2),
                   violations=len(seen))
         ev["coverage"]["known_findings_seen"] = self.known_hits
+        ev["coverage"]["observations_left_to_other_checks"] = self.skipped
         os.makedirs(EVID, exist_ok=True)
         with open(os.path.join(EVID, "%s.json" % self.prop), "w") as f:
             json.dump(ev, f, indent=1)
